@@ -758,9 +758,11 @@ std::string isoProgram(int mask) {
     s += "function mkLabel(Shape s) -> Label { return new Label(s); }\n";
     s += "function rec(int n) -> int { if (n == 0) { int[] xs = {1}; return xs[5]; } return rec(n - 1) + 1; }\n";
     // a chain declared most-derived first (the class table must not depend on, or change, the order of declaration)
-    s += "class Z3 extends Z2 { public int c = 3; public constructor() -> Z3 { super(); return this; } public function all() -> int { return this.a + this.b + this.c; } }\n";
-    s += "class Z2 extends Z1 { public int b = 2; public constructor() -> Z2 { super(); return this; } }\n";
-    s += "class Z1 { public int a = 1; public constructor() -> Z1 { return this; } }\n";
+    // (their static initialisers echo, so the order in which an execution initialises the classes is part of its output)
+    s += "static class Note { public static function mark(int k) -> int { echo(\"init \" + k); return k; } }\n";
+    s += "class Z3 extends Z2 { public static int tag3 = Note.mark(3); public int c = 3; public constructor() -> Z3 { super(); return this; } public function all() -> int { return this.a + this.b + this.c; } }\n";
+    s += "class Z2 extends Z1 { public static int tag2 = Note.mark(2); public int b = 2; public constructor() -> Z2 { super(); return this; } }\n";
+    s += "class Z1 { public static int tag1 = Note.mark(1); public int a = 1; public constructor() -> Z1 { return this; } }\n";
     // a static final field whose initialiser measures a qubit: evaluated afresh by every execution, with that execution's draws
     s += "static class Coin { public static function flip() -> bit { qubit c; h(c); bit r = measure c; return r; } }\n";
     s += "class Cfg { public static final bit side = Coin.flip(); public static final bit other = Coin.flip(); public constructor() -> Cfg { return this; } }\n";
@@ -1024,9 +1026,14 @@ IsoPlan genIso(uint64_t seed, uint64_t run) {
 // ================================================================================================
 void runOne(const sim::Options& opt, uint64_t run, sim::RunReport& rep) {
     rep.count("runs");
-    if (opt.property == "C17") {
+    // C18 at the level of the CLI: every fifth run is a multi-shot run of a shot program, and what the shot loop reports must be
+    // what that many independent executions add up to (the shot-accounting oracle of C17, restricted to the classes that say so)
+    bool c18Cli = opt.property == "C18" && run % 5 == 3;
+    if (opt.property == "C17" || c18Cli) {
         sim::Rng g(opt.seed, "gen", run);
         ShotPlan p = genShot(g);
+        if (c18Cli && p.annShots <= 1 && p.cliShots <= 1) p.cliShots = 3;
+        if (c18Cli) rep.count("c18.cli_shot_loop_runs");
         std::string src = renderShot(p);
         uint64_t measures = 0;
         Verdict v = libraryCheck(p, src, run, measures);
@@ -1040,6 +1047,7 @@ void runOne(const sim::Options& opt, uint64_t run, sim::RunReport& rep) {
             rep.count("c17.measure_statements_scripted", cr.measureStmts);
         }
         if (v.cls == "harness_rejected") { rep.count("harness.rejected_program"); fprintf(stderr, "rejected (run %llu): %s\n", (unsigned long long)run, v.detail.c_str()); return; }
+        if (c18Cli && v.cls != "executed_shot_count_wrong" && v.cls != "aggregate_table_differs" && v.cls != "shots_line_wrong") v.cls.clear();
         for (auto& s : p.segs) {
             rep.count(std::string("seg.") + segName(s.kind));
             if ((s.kind == S_LOOP || s.kind == S_HELPER) && s.reps > 1) rep.count("c17.multi_exit_scopes");
@@ -1258,7 +1266,7 @@ int main(int argc, char** argv) {
     }
     std::vector<std::string> mandatory;
     if (opt.property == "C17") mandatory = {"c17.cli_runs", "c17.measure_statements_scripted", "c17.multi_exit_scopes", "c17.object_owned_tracked_fields", "echo.absent", "echo.auto", "echo.all", "echo.none", "cfg.annotation_and_flag_differ", "cfg.annotation_only", "cfg.flag_only", "cfg.no_shot_count"};
-    else mandatory = {"c18.executions", "c18.words_drawn", "c18.family_class_program", "c18.family_quantum_history", "c18.family_isolation_program", "c18.reanalysed_between_executions"};
+    else mandatory = {"c18.executions", "c18.words_drawn", "c18.family_class_program", "c18.family_quantum_history", "c18.family_isolation_program", "c18.reanalysed_between_executions", "c18.cli_shot_loop_runs"};
     if (R.runs >= 500)
         for (auto& m : mandatory)
             if (R.counters[m] == 0) { fprintf(stderr, "HARNESS: mandatory reach counter %s is zero\n", m.c_str()); if (S.exitCode == 0) S.exitCode = 2; }
